@@ -74,7 +74,7 @@ function genObj(rng, d, sc, allowIndex = true) {
 }
 function genTpl(rng) {
   const n = 1 + rng.below(3), items = [];
-  for (let i = 0; i < n; i++) items.push(rng.pick([A("str"), A("num"), A("bool"), [A("lit"), "a"], [A("lit"), "-"], [A("lit"), "x.y"], [A("oneof"), [A("lit"), "p"], [A("lit"), "q"]], [A("oneof"), [A("lit"), ""], [A("lit"), "-"]]]));
+  for (let i = 0; i < n; i++) items.push(rng.pick([A("str"), A("num"), A("bool"), [A("lit"), "a"], [A("lit"), "-"], [A("lit"), "x.y"], [A("lit"), "/u/"], [A("lit"), "s://"], [A("oneof"), [A("lit"), "p"], [A("lit"), "q"]], [A("oneof"), [A("lit"), ""], [A("lit"), "-"]]]));
   // adjacent literal quasis are one quasi in source; merge them so the TsCore term is canonical
   const merged = [];
   for (const it of items) { const last = merged[merged.length - 1]; if (head(it) === "lit" && last && head(last) === "lit") last[1] += it[1]; else merged.push(head(it) === "lit" ? [A("lit"), it[1]] : it); }
@@ -103,7 +103,8 @@ export function genTy(rng, d, sc) {
       const ty = genTy(rng, 0, sc);
       const others = (skip) => genObjMembers(rng, d - 1, sc).filter((m) => m[0] !== skip);
       const m1 = [A("obj"), [[k, A("false"), ty], ...others(k)], A("none")];
-      const m2 = [A("obj"), [[k, A("true"), ty], ...others(k)], A("none")];
+      // … or the very same declaration in both members (`{id: string; a: number} & {id: string; b: number}`)
+      const m2 = [A("obj"), [[k, A(rng.chance(1, 3) ? "false" : "true"), ty], ...others(k)], A("none")];
       return rng.chance(1, 2) ? [A("inter"), m1, m2] : [A("inter"), m2, m1];
     }
     case 0: case 1: case 2: return genObj(rng, d, sc);
@@ -143,7 +144,8 @@ export function genProg(rng) {
   for (let i = 0; i < nd; i++) {
     const generic = rng.chance(1, 3);
     const params = generic ? ["T"] : [];
-    const name = (rng.chance(1, 2) ? "O" : "N") + i;
+    // a declaration called like the type parameter of the generic ones: scoping of `T` is lexical
+    const name = i === 0 && !generic && rng.chance(1, 4) ? "T" : (rng.chance(1, 2) ? "O" : "N") + i;
     const sc = { names: names.slice(), objNames: objNames.slice(), params };
     const isObj = name.startsWith("O");
     if (isObj) {
@@ -491,6 +493,23 @@ export function gen(rng, params, mode) {
     }
     return [A("split"), A(String(counter++)), p, [["entry.ts", tsOfProg(p)]], vals.map(encVal), sp.proj, sp.files, sp.expect, sp.breakKind];
   }
+  if (mode === "prog-strict") {
+    // (strict id p files values): acceptance with disallowExtraProperties on; values carry undeclared keys at every depth
+    const p = genProg(rng);
+    const base = genValues(rng, p, Number(params[0] || 8));
+    const extra = (v, d) => {
+      if (Array.isArray(v)) return v.map((x) => (rng.chance(1, 3) ? extra(x, d + 1) : x));
+      if (v && typeof v === "object" && Object.getPrototypeOf(v) === Object.prototype) {
+        const o = {};
+        for (const k of Object.keys(v)) Object.defineProperty(o, k, { value: rng.chance(1, 2) ? extra(v[k], d + 1) : v[k], enumerable: true, configurable: true, writable: true });
+        if (rng.chance(1, 2 + d)) Object.defineProperty(o, rng.pick(["extra", "zz", "a", "b", "kind"]), { value: rng.pick([1, "x", null]), enumerable: true, configurable: true, writable: true });
+        return o;
+      }
+      return v;
+    };
+    const vals = base.flatMap((v) => (rng.chance(1, 2) ? [v, extra(v, 0)] : [v]));
+    return [A("strict"), A(String(counter++)), p, [["entry.ts", tsOfProg(p)]], vals.map(encVal)];
+  }
   if (mode === "prog-describe") {
     const p = genProg(rng);
     p[2] = [p[2][0]]; // one export
@@ -623,9 +642,18 @@ export function makeRunner(rt_, mode, build) {
       const pr = parsers[name];
       if (!pr) { bad.push(A("c04.missing-parser")); out.push([A(name), "missing"]); continue; }
       let bits = "";
+      if (head(req) === "strict") {
+        // default-mode bits, then strict-mode bits; strict acceptance implies default acceptance
+        let dflt = "";
+        for (const v of vals) { try { dflt += pr.validate(v) ? "1" : "0"; } catch (e) { dflt += "T"; bad.push(A("c03.throw")); } }
+        for (const v of vals) { try { bits += pr.validate(v, { disallowExtraProperties: true }) ? "1" : "0"; } catch (e) { bits += "T"; bad.push(A("c03.throw")); } }
+        for (let i = 0; i < bits.length; i++) if (bits[i] === "1" && dflt[i] === "0") bad.push(A("c11.mono"));
+        out.push([A(name), dflt, bits]);
+        continue;
+      }
       for (const v of vals) { try { bits += pr.validate(v) ? "1" : "0"; } catch (e) { bits += "T"; bad.push(A("c03.throw")); } }
       out.push([A(name), bits]);
     }
-    return [out, bad.length ? [A("oracle"), A("fail"), ...bad] : [A("oracle"), A("ok")]];
+    return [out, bad.length ? [A("oracle"), A("fail"), ...new Map(bad.map((x) => [x.s, x])).values()] : [A("oracle"), A("ok")]];
   };
 }
